@@ -104,13 +104,16 @@ func (u *upstream) Serve() {
 	}()
 	wg.Wait()
 
-	// stop all clients
+	// stop all clients. Taking the lock waits for a connection that is being created
+	// (createClient checks quit under it, so none is created afterwards); the clients
+	// are stopped without it: a client's read loop may be waiting for the lock while
+	// it follows a redirection, and Stop waits for that loop.
 	u.clientsMu.Lock()
 	clients := u.loadClients()
+	u.clientsMu.Unlock()
 	for _, c := range clients {
 		c.Stop()
 	}
-	u.clientsMu.Unlock()
 	close(u.done)
 }
 
